@@ -108,12 +108,42 @@ def check_t2(scratch):
 
 
 def run_obligations(sel, known, tier, prop):
+    """Plain harness-stated obligations and attribute-contract obligations (proof_for_contract /
+    stub_verified) run in two separate scratch copies: only the second carries the injected
+    `kani::requires/ensures` attribute lines."""
+    out = {"results": [], "undecided": [], "violations": [], "known_hits": [], "cmds": []}
+    plain = [o for o in sel if not (o.contract or o.stub_verified)]
+    attr = [o for o in sel if (o.contract or o.stub_verified)]
+    # the canary of a unit goes with whichever group has obligations of that unit (plain preferred)
+    for group, flag in ((plain, False), (attr, True)):
+        real = [o for o in group if o.kind != "canary"]
+        if not real:
+            continue
+        units = {o.unit for o in real}
+        grp = real + [o for o in sel if o.kind == "canary" and o.unit in units and not (o.contract or o.stub_verified)]
+        part = _run_group(grp, known, tier, prop, flag)
+        for k in out:
+            out[k] += part[k]
+    # de-duplicate canary results (a canary may have run in both groups)
+    seen = set()
+    res = []
+    for r in out["results"]:
+        key = (r["id"], r["harness"])
+        if r["kind"] == "canary" and key in seen:
+            continue
+        seen.add(key)
+        res.append(r)
+    out["results"] = res
+    return out
+
+
+def _run_group(sel, known, tier, prop, attrs):
     out = {"results": [], "undecided": [], "violations": [], "known_hits": [], "cmds": []}
     units = sorted({o.unit for o in sel})
     all_obs = [o for o in vlib.load_obligations() if o.unit in units]
     htimeout = int(os.environ.get("VERIF_HARNESS_TIMEOUT", HARNESS_TIMEOUT[tier]))
-    with Scratch(f"{prop}.{tier}") as s:
-        idx = s.inject(all_obs, known)
+    with Scratch(f"{prop}.{tier}.{'attr' if attrs else 'plain'}") as s:
+        idx = s.inject(all_obs, known, attrs=attrs)
         added = check_t2(s)
         sel_ids = {o.id for o in sel}
         harnesses = [(h, v) for h, v in idx.items() if v[0].id in sel_ids]
@@ -125,7 +155,7 @@ def run_obligations(sel, known, tier, prop):
         out["cmds"].append(cmd.replace(str(s.path), "<scratch copy of /repo>"))
         log = VERIF / "evidence" / "logs"
         log.mkdir(parents=True, exist_ok=True)
-        (log / f"{prop}.{tier}.kani.log").write_text(text.replace(str(s.path), "<scratch>"))
+        (log / f"{prop}.{tier}.kani{'.attr' if attrs else ''}.log").write_text(text.replace(str(s.path), "<scratch>"))
         if not re.search(r"Compiling wax v\S+ \(" + re.escape(str(s.path)) + r"\)", text):
             m = re.search(r"error(\[E\d+\])?: .*", text)
             raise Undecided(f"scratch crate was not compiled by cargo kani (rc={rc}): {m.group(0) if m else text[-400:]}")
